@@ -37,6 +37,12 @@ func (w *World) verifyFunc(fn *ssa.Function, c *FuncContract) (x *Exec, err erro
 	for i, p := range fn.Params {
 		v := x.freshVal(st, "p_"+p.Name(), p.Type())
 		fr.env[p] = v
+		if pt, ok := p.Type().Underlying().(*types.Pointer); ok {
+			if _, isStruct := pt.Elem().Underlying().(*types.Struct); isStruct {
+				loc := x.locOfPtr(v.T, pt.Elem())
+				x.assume(st, Implies(Not(Eq(v.T, Term{"pnil", SPtr})), x.typeInv(x.load(st, loc), pt.Elem(), st, 2)))
+			}
+		}
 		if i == 0 && fn.Signature.Recv() != nil {
 			if _, ok := p.Type().Underlying().(*types.Pointer); ok {
 				x.assume(st, Not(Eq(v.T, Term{"pnil", SPtr})))
@@ -90,23 +96,29 @@ func (w *World) verifyFunc(fn *ssa.Function, c *FuncContract) (x *Exec, err erro
 			if cl.Kind != "ensures" {
 				continue
 			}
-			t, err := x.evalBool(env, cl.Expr)
-			if err != nil {
-				return x, fmt.Errorf("%s: ensures: %v in %q", x.curFunc, err, cl.Text)
+			parts := conjuncts(cl.Expr)
+			for pi, pe := range parts {
+				t, err := x.evalBool(env, pe)
+				if err != nil {
+					return x, fmt.Errorf("%s: ensures: %v in %q", x.curFunc, err, cl.Text)
+				}
+				name := fmt.Sprintf("%s:ensures#%d", x.curFunc, i)
+				if cl.Name != "" {
+					name = fmt.Sprintf("%s:ensures[%s]", x.curFunc, cl.Name)
+				}
+				name = partName(name, pi, len(parts))
+				if nret > 1 {
+					name += fmt.Sprintf("@ret%d", nret)
+				}
+				o := x.obligation(r.st, "ensures", name, t, clauseProps(fr, cl), cl.Text, fmt.Sprintf("%s:%d", cl.File, cl.Line))
+				// later postconditions may use earlier ones (each is proved on its own)
+				x.sc.Assume(Implies(r.st.reach, t))
+				var ps []*Val
+				for _, p := range fn.Params {
+					ps = append(ps, fr.env[p])
+				}
+				o.Replay = &replaySpec{fn: fn, params: ps, results: r.vals, entry: fr.entry, final: r.st, x: x}
 			}
-			name := fmt.Sprintf("%s:ensures#%d", x.curFunc, i)
-			if cl.Name != "" {
-				name = fmt.Sprintf("%s:ensures[%s]", x.curFunc, cl.Name)
-			}
-			if nret > 1 {
-				name += fmt.Sprintf("@ret%d", nret)
-			}
-			o := x.obligation(r.st, "ensures", name, t, clauseProps(fr, cl), cl.Text, fmt.Sprintf("%s:%d", cl.File, cl.Line))
-			var ps []*Val
-			for _, p := range fn.Params {
-				ps = append(ps, fr.env[p])
-			}
-			o.Replay = &replaySpec{fn: fn, params: ps, results: r.vals, entry: fr.entry, final: r.st, x: x}
 		}
 	}
 	if len(x.unsup) > 0 {
